@@ -769,6 +769,9 @@ def r1111(ctx):
 
 
 def run(ctx):
+    ctx.rule("R-11.14", "the QuanTIS acceptance rule is evaluated on the energies of the exchanged configurations: every stored frame carries the energy of its own configuration (one energy entry per stored frame in the in-process engines; shared with C12 R-12.24)", floor=2)
+    from . import c12 as _c12n
+    ctx.attempt(_c12n.energies_per_frame, ctx, "R-11.14", " - quantis_swap_zero reads V0 / V1 from interior frames of the old paths and accepts or rejects the swap on energy differences of other configurations")
     ctx.rule("R-11.4", "QuanTIS acceptance: each energy difference is weighted with the beta of the engine of its own level", floor=2)
     ctx.rule("R-11.5", "the engines' velocity-reversal codecs negate exactly the velocities (shared with C19 R-19.5): time reversal used by the zero swap is an involution", floor=5)
     ctx.rule("R-11.7", "the kinetic and the potential energy stored with a path are constructed alike in every engine (scaling, slicing, source table) - the potential energies QuanTIS compares are system totals", floor=5)
@@ -806,6 +809,7 @@ def run(ctx):
 
 
 VARIANTS = [
+    B("c11-ase-energy-per-md-step", ASE, "            if (i) % (self.subcycles) == 0:\n                ekin.append(atoms.get_kinetic_energy())\n                vpot.append(self.calc.results[\"energy\"])\n", "            ekin.append(atoms.get_kinetic_energy())\n            vpot.append(energy)\n            if (i) % (self.subcycles) == 0:\n", "R-11.14", control=True, why="seeded C11_n"),
     B("c11-turtle-budget-without-subcycles", TURTLE, "steps=path.maxlen * self.subcycles,", "steps=path.maxlen,", "R-11.13", control=True, why="seeded C11_m"),
     B("c11-dump-config-index-by-truthiness", ENGBASE_REL, "        if idx is None:", "        if not idx:", "R-11.12", control=True, why="seeded C11_l"),
     K("c11-keep-process-counter-itertools", ENGBASE_REL, 'str(counter())\n', 'str(next(_PROPAGATIONS))\n', also=[(ENGBASE_REL, "def counter():\n", "import itertools\n_PROPAGATIONS = itertools.count()\n\n\ndef counter():\n")]),
